@@ -73,7 +73,7 @@ func buildC09(c *c09Case) *liveCase {
 		} else {
 			lc.HTTP.Faults = []sim.Fault{*c.Fault}
 		}
-		if c.Fault.Kind == "stall" {
+		if strings.HasPrefix(c.Fault.Kind, "stall") {
 			lc.Timeout = 1
 		}
 	}
@@ -95,7 +95,7 @@ func kindFamily(kind string) string {
 		return "output"
 	case "status":
 		return "status"
-	case "close", "stall", "die-before", "http-500", "http-403", "http-403-empty", "http-502-empty":
+	case "close", "stall", "stall-body", "die-before", "http-500", "http-403", "http-403-empty", "http-502-empty":
 		return "transport"
 	}
 	return "job"
@@ -247,6 +247,13 @@ func judgeC09(c *c09Case, lr *liveResult) (clause, what string) {
 				faultKind, faultOrd, c.StepClass, c.StepRaw)
 		}
 	}
+	for _, e := range lr.Events {
+		if e.Verdict == "stall:peer-never-gave-up" {
+			// The device went silent and the tool (timeout 1 s) was still
+			// waiting when the simulator gave up after 30 s.
+			return "stall-not-bounded-by-timeout", fmt.Sprintf("the tool was still waiting 30 s after the device went silent (%s at step %d, %s: %s); configured timeout 1 s", faultKind, faultOrd, c.StepClass, c.StepRaw)
+		}
+	}
 	if lr.Res.Exit == 0 {
 		return "exit-0", fmt.Sprintf("exit status 0 after fault %s at step %d (%s: %s)", faultKind, faultOrd, c.StepClass, c.StepRaw)
 	}
@@ -348,7 +355,7 @@ func checkC09(tier, replay string) int {
 					}
 				}
 				for _, kind := range kinds {
-					if (kind == "stall" || kind == "die-before") && tier == "quick" && (e.Ord+int(env.Seed))%5 != 0 {
+					if (strings.HasPrefix(kind, "stall") || kind == "die-before") && tier == "quick" && (e.Ord+int(env.Seed))%5 != 0 {
 						continue
 					}
 					// do-approve runs start from the status file of earlier
